@@ -19,6 +19,9 @@ is lalrpop's or the Rust language's own is the identity on the *language*:
   quotes into generated Rust source, is lexed by rustc back into exactly that string, whatever set
   of characters the standard library chooses to render as `\u{…}` (`uni` is universally quantified).
 
+* `escape_injective`, `debug_quote_injective`, `literal_languages_disjoint` — no two different literals share an
+  escaped text, a `{:?}` rendering, or a matched input.
+
 NOT proved here (covered by differential testing against the real crates instead):
 
   `rerender_preserves_language_partial` — for a general regex `r`,
@@ -97,6 +100,47 @@ theorem debug_quote_roundtrip (uni : Nat → Bool) (s rest : List Nat)
     rw [List.flatMap_cons, List.append_assoc, readStrLit_escDebugChar uni c hc,
       ih (fun x hx => h x (List.mem_cons_of_mem _ hx)) f' (by omega)]
     rfl
+
+/-! ### distinct terminals stay distinct through every layer -/
+
+/-- **escape_injective.** Two different literals never get the same regex text. -/
+theorem escape_injective (s t : List Nat) (h : escape s = escape t) : s = t := by
+  have hs := escape_parse s
+  rw [h, escape_parse t] at hs
+  exact (Option.some.inj hs).symm
+
+/-- **literal_languages_disjoint.** The HIRs of two different quoted terminals have disjoint
+languages: no input is matched by both (so the lexer never confuses `"s"` with `"t"`). -/
+theorem literal_languages_disjoint (s t : List Nat) (hs : ∀ c, c ∈ s → isScalar c = true)
+    (ht : ∀ c, c ∈ t → isScalar c = true) (hne : s ≠ t) (h₁ h₂ : Hir)
+    (e₁ : parseLiteral s = some h₁) (e₂ : parseLiteral t = some h₂) (w : List Nat) :
+    ¬ (denote .chars h₁ w ∧ denote .chars h₂ w) := by
+  obtain ⟨a, ea, ha⟩ := literal_roundtrip s hs
+  obtain ⟨b, eb, hb⟩ := literal_roundtrip t ht
+  rw [e₁] at ea; rw [e₂] at eb
+  cases Option.some.inj ea; cases Option.some.inj eb
+  rintro ⟨d₁, d₂⟩
+  exact hne (((ha w).mp d₁).symm.trans ((hb w).mp d₂))
+
+/-- **debug_quote_injective.** The `{:?}` text written into the generated source determines the
+regex string: two different strings never share a rendering, whatever `uni` is. -/
+theorem debug_quote_injective (uni : Nat → Bool) (s t : List Nat)
+    (hs : ∀ c, c ∈ s → isScalar c = true) (ht : ∀ c, c ∈ t → isScalar c = true)
+    (h : escDebug uni s = escDebug uni t) : s = t := by
+  have a := debug_quote_roundtrip uni s [] hs ((escDebug uni s).length + 1) (by omega)
+  have b := debug_quote_roundtrip uni t [] ht ((escDebug uni s).length + 1) (by rw [h]; omega)
+  rw [h] at a b
+  rw [b] at a
+  exact ((Prod.mk.inj (Option.some.inj a)).1).symm
+
+example : ¬ (denote .chars (Option.get! (parseLiteral [97, 43])) [97, 43] ∧
+    denote .chars (Option.get! (parseLiteral [97])) [97, 43]) := by
+  intro h
+  obtain ⟨a, ea, ha⟩ := literal_roundtrip [97] (by decide)
+  have : Option.get! (parseLiteral [97]) = a := by rw [ea]; rfl
+  rw [this] at h
+  exact absurd ((ha _).mp h.2) (by decide)
+
 
 /-! ### the hypotheses are satisfiable -/
 
